@@ -365,6 +365,22 @@ class Gen:
         self.last = d
         return d
 
+    def convert(self):
+        """The conversion queries (beyond the listed properties): a point or an offset with some coordinates left out, an
+        absolute point to express in the mode in force, a short list of waypoints of mixed arity."""
+        r = self.r
+        c = r.choice(["to_absolute", "to_absolute", "to_distance_mode", "to_absolute_list"])
+        if c == "to_absolute_list":
+            pts = []
+            for _ in range(r.randint(1, 4)):
+                k = r.choice([2, 3, 3])
+                pts.append([self.num(-6, 20) for _ in range(k)])
+            return {"call": c, "pts": pts}
+        ax = [None, None, None]
+        for i in r.sample(range(3), r.choice([0, 1, 2, 3, 3])):
+            ax[i] = self.num(-6, 20)
+        return {"call": c, "ax": ax}
+
     def dance(self):
         """A word set on a move, changed through its own setter, and set back on a move (added after seed C07h): the second
         move must carry the word again -- two records of 'the value in force' (last move parameter / modal state) exist."""
@@ -390,6 +406,8 @@ class Gen:
         if self.profile in ("mixed", "motion", "bounds") and self.r.random() < 0.03:
             q.extend(self.dance())
             return q.pop(0)
+        if self.profile in ("mixed", "motion") and self.r.random() < 0.04:
+            return self.convert()
         r = self.r
         p = self.profile
         x = r.random()
